@@ -165,6 +165,10 @@ func classify(txType int32, msg string) string {
 		return "mainnet"
 	case has("recoverPubkey failed"):
 		return "recover"
+	case has("not enough rpg"):
+		return "rpg"
+	case has("fail to call create2"):
+		return "create2"
 	case has("miner type error"):
 		return "type"
 	case has("not enough stake, minerId"):
@@ -441,6 +445,21 @@ type interp struct {
 	w *world
 }
 
+// nodeContractCode: a stand-in for the main-node contract (function 0x412a5a6d): three empty logs and a fourth whose
+// 32-byte data word is ORIGIN xor 0x5a…5a, which is what minerNodeExecutor.generateContractAddress reads the new
+// controlling address from.
+func nodeContractCode() []byte {
+	b := []byte{0x32, 0x73} // ORIGIN PUSH20
+	for i := 0; i < 20; i++ {
+		b = append(b, 0x5a)
+	}
+	b = append(b, 0x18, 0x60, 0x00, 0x52) // XOR PUSH1 0 MSTORE
+	for i := 0; i < 3; i++ {
+		b = append(b, 0x60, 0x00, 0x60, 0x00, 0xa0) // LOG0(0,0)
+	}
+	return append(b, 0x60, 0x20, 0x60, 0x00, 0xa0, 0x00) // LOG0(0,32) STOP
+}
+
 // stubGroups: types.GroupChainHelper / types.ForkHelper whose available groups have the given dismiss heights.
 type stubGroups struct{ dismiss []uint64 }
 
@@ -580,6 +599,11 @@ func (ip *interp) exec(line string) string {
 		}
 		op := map[string]byte{"vmstake": 0xee, "vmunstake": 0xef, "vmunstakeall": 0xeb}[t[0]]
 		return w.runStakeOp(op, bs(t[1]), bs(t[2]), amt)
+	case "nodecode":
+		w.adb.SetCode(common.MainNodeContract(), nodeContractCode())
+		return "ok"
+	case "node":
+		return w.runTx(types.TransactionTypeOperatorNode, bs(t[1]), "")
 	case "rheight":
 		// rheight <p012> <p004> <p011now> <fork> <now> <left> <type> <dismiss csv|.>
 		ds := []uint64{}
